@@ -107,6 +107,31 @@ CHECKS["C17"] = ("exploration",
     "5/C17")
 NOT_APPLICABLE = {}
 
+# what the six rounds of independent seeded changes added to each check (DESIGN.md 10.6 / 10.7)
+EXTENSIONS = {
+ "C01": "Further explorers: hundreds-thousands of samples and up to 64 clusters (sizes straddling the powers of two; Wasserstein against a closed-form 1-D reference), count data in every numeric container (uint8..int64, float32, lists, Fortran, read-only, strided), memory layouts, in-place edit histories and long-lived objects, affinities of magnitude 1e-10..1e8 and matrices clean only up to rounding.",
+ "C02": "Also: tolerances relative to the affinity magnitude (1e-9-unit metrics), near-coincident clusters (logits of size 1e-6/1e-9) for Wasserstein and TV, non-default clipping epsilon, the returned gradient array must stay that gradient after later evaluations of any object, Fortran-ordered predictions.",
+ "C03": "Also: hyperparameters arriving through set_params on a default / used estimator, verbose mode, sparse models trained by path(), one-feature Douglas, hub constraints, a monitored fit after an earlier fit.",
+ "C04": "Also: every single-axis configuration reached by set_params on a used default estimator, input forms (Fortran, int, float32, lists, read-only, strided, numpy-scalar hyperparameters, zero/constant columns, duplicate rows, x1000), strong penalties on never-varying features, a label vector in the unused y slot, refits on other shapes, idempotent queries.",
+ "C05": "Also: large shapes (K up to 300, d up to 150 with shuffled non-contiguous groups, h up to 200), storage dtypes (int64/int32/float32), read-only weights, memory layouts.",
+ "C06": "Also: M=0, hyperparameters through set_params, and a history in which the same object was first trained with another group structure.",
+ "C07": "Also: the score the path works with is recomputed independently at every validation call (selected features in dynamic mode), input forms (list, float32, Fortran, read-only), group structures, set_params route.",
+ "C08": "Also: multisets over adjacent doubles and near the overflow limit, small / large magnitude kernels, the documented fallback path as history, set_params route, bookkeeping / explorable-leaves / stop-reason oracles.",
+ "C09": "Also: trees with dozens of leaves on 80..1000 samples, adjacent-double / overflow data, numpy-integer limits through set_params, fallback history.",
+ "C10": "Also: n in {33,130} with batch sizes around powers of two and n, numpy-integer batch sizes, verbose mode, refits on other sizes, indices recorded by the decoration at the moment of use, dynamic paths with a data-set-dependent user kernel.",
+ "C11": "Also: a decoy y for named affinities, the matrix handed to fit_predict, integer / float32 / list data together with a float precomputed matrix, reconfiguration by set_params, user parameter dictionaries left untouched.",
+ "C12": "Also: set_params events for every model-specific hyperparameter, pickle / deepcopy events, precomputed matrices clean only up to rounding, decorated configurations, pure-query oracle, and a process-isolation explorer that compares with a fresh interpreter after other objects of all 18 classes have worked in the process.",
+ "C13": "Also: hundreds-thousands of samples (reversal, rotation, shuffle, swapped halves), prediction dtypes (float32; int/bool hard partitions), read-only arguments, reordered problems in Fortran order / strided views, in-place reordering by the caller.",
+ "C14": "Also: training histories (refits, queries in between, path, constraints added in two calls, verbose mode) observed with a class-level spy; three constraint layouts.",
+ "C15": "Also: batch_size axis with whole-query-set public calls, query dtypes, distinct cells give distinct predictions, storage order of cut points, set_params route.",
+ "C16": "Also: the whole must-link / cannot-link pair-set lattice as an inconsistent-combination domain, numeric text as non-numeric data, a refused estimator must refuse predict / score / print, the caller's groups list stays valid and unchanged.",
+ "C17": "Also: a GEMINI-level explorer (degenerate affinities x degenerate predictions x n in {6,20,80}, integer / boolean hard partitions), copies-of-samples families, non-default kernels, set_params route.",
+ "C18": "Also: large query arrays, integer / float32 queries, time-stamp-like features, refit of an object that had predicted before.",
+ "C19": "Also: trees with dozens of leaves, adjacent-double / overflow data with a user kernel, +-1 ulp queries, same-shape refit history with predict / score / print in between, set_params route.",
+ "C20": "Also: singular / structured scale matrices with a distribution-free support oracle, all-integer parameters, empty components with far-apart tight components over all label vectors, heterogeneous-unit mixtures in the reject menu.",
+}
+
+
 def main():
     props = [json.loads(l)["id"] for l in open(os.path.join(HERE, "properties.jsonl"))]
     checks = []
@@ -114,6 +139,7 @@ def main():
         if pid not in CHECKS:
             continue
         level, tech, text, note, ref = CHECKS[pid]
+        text = text + " " + EXTENSIONS.get(pid, "")
         checks.append({
             "property_id": pid,
             "quick_cmd": f"./check {pid} --tier quick",
